@@ -601,6 +601,7 @@ def parse_server_stream(buf, fmt, conn, unlzo, unjpeg, stats):
                 if "error" in info:
                     r["error"], r["finding"] = info["error"], info.get("finding")
                 k = info.get("kind", "?")
+                r["tkind"] = k
                 stats["tight"][k] = stats["tight"].get(k, 0) + 1
                 for kk in ("nozlib", "resets"):
                     if kk in info:
